@@ -515,9 +515,12 @@ class Stmts:
         return cands
 
     def quick_valid(self, st: St, goal, timeout_ms: int = 1500) -> bool:
+        from pyvc.engine import VC, relevant_only
+
+        v = relevant_only(VC("houdini", "", tuple(st.pc), goal))
         s = z3.Solver()
         s.set("timeout", timeout_ms)
-        s.add(*st.pc)
+        s.add(*v.pc)
         s.add(z3.Not(goal))
         return s.check() == z3.unsat
 
